@@ -122,7 +122,14 @@ def run_cases(ctx, cases, variants):
             ctx.mismatch("%s.panic" % req["op"], {"input": text, "resp": resp}, {"fam": case["fam"], "case": case, "request": req, "want": want})
             continue
         if got != want:
-            ctx.mismatch(classify(req["op"], text, want, got, case), {"input": text, "expected": want, "observed": resp},
+            sig = classify(req["op"], text, want, got, case)
+            # the recorded findings are recognised exactly: the observed result must be what the pinned-implementation
+            # mirror of the specification predicts; any other deviation is a new violation
+            if case["fam"] != "field_name":
+                pin = case.get("pinned", {})
+                pinned_want = norm_expected_template({"parts": pin.get("parts", [])}, f) if pin.get("ok") else None
+                sig += "#pinned" if got == pinned_want else "#new"
+            ctx.mismatch(sig, {"input": text, "expected": want, "observed": resp},
                          {"fam": case["fam"], "case": case, "request": req, "want": want})
     ctx.extra["spec_reference_disagreements"] = ctx.extra.get("spec_reference_disagreements", 0) + disagreements
 
@@ -243,7 +250,7 @@ def trace_validation(ctx):
         ev = evs[b["at"] - 1]
         text = conc(ev["inp"])
         # same narrow signatures as the replay direction: recompute the spec tags through a tiny TLC-free projection
-        ctx.mismatch("%s.trace.%s@%s" % (ev["op"], b["why"], "+".join(sorted(b["tags"]))), {"input": text, "observed": ev},
+        ctx.mismatch("%s.trace.%s@%s%s" % (ev["op"], b["why"], "+".join(sorted(b["tags"])), "" if ev["op"] == "field_name" else ("#pinned" if b.get("pinned") else "#new")), {"input": text, "observed": ev},
                      {"fam": "trace", "request": {"op": ev["op"], "s": text}})
     ctx.traces_validated += len(evs) - len(bad)
     os.remove(path)
